@@ -7,7 +7,7 @@ func reg(s *Spec) { specs[s.ID] = s }
 func init() {
 	reg(&Spec{
 		ID: "C11",
-		Quick: func() []Inst {
+		Quick: func(l *loaded) []Inst {
 			out := []Inst{{Pkg: "cemi", Fn: "HarnessC11Helpers", Note: "helpers over full 8-bit domains"}}
 			for kind := int64(0); kind < 3; kind++ {
 				for _, il := range []int64{0, 1, 255} {
@@ -21,7 +21,7 @@ func init() {
 			}
 			return out
 		},
-		Thorough: func() []Inst {
+		Thorough: func(l *loaded) []Inst {
 			out := []Inst{{Pkg: "cemi", Fn: "HarnessC11Helpers"}}
 			for kind := int64(0); kind < 3; kind++ {
 				for dl := int64(1); dl <= 254; dl++ {
@@ -90,11 +90,140 @@ func init() {
 	}
 	reg(&Spec{
 		ID:       "C18",
-		Quick:    func() []Inst { return c18(5, false) },
-		Thorough: func() []Inst { return c18(8, true) },
+		Quick:    func(l *loaded) []Inst { return c18(5, false) },
+		Thorough: func(l *loaded) []Inst { return c18(8, true) },
 		Covers:   []string{"C18.rt.end", "C18.ctor.end", "C18.parse.accept", "C18.parse.reject"},
 		Bounds:   "round trip: all 65535 non-zero addresses of both kinds (one symbolic 16-bit variable); constructors: all argument values; acceptance: every byte string of length 0..5 (quick) / 0..8 (thorough) fully symbolic against an independent recogniser of the documented language, plus grammar-shaped texts of 1..4 components with 1..5 symbolic digits each, optional signs and symbolic separator bytes",
 		Outside:  "fully symbolic strings longer than 8 bytes; components longer than 5 digits; strings with non-ASCII digits are covered only as arbitrary bytes",
 		Assume:   []string{"strings.Split and strconv.Atoi are executed from their real SSA; internal/bytealg.IndexByteString/CountString and strconv.syntaxError/rangeError are engine built-ins", "fmt.Sprintf(\"%d...\") is a built-in decimal formatter validated by native replay"},
 	})
+
+	dptAll := func(l *loaded, fn string, lens func(main, sub int64) []int64) []Inst {
+		var out []Inst
+		for _, n := range dptNames(l) {
+			for _, ln := range lens(n[0], n[1]) {
+				out = append(out, Inst{Pkg: "dpt", Fn: fn, Args: []int64{n[0], n[1], ln}})
+			}
+		}
+		return out
+	}
+	reg(&Spec{
+		ID:     "C08",
+		Solver: "cvc5",
+		Quick: func(l *loaded) []Inst {
+			return dptAll(l, "HarnessC08", func(m, s int64) []int64 {
+				var r []int64
+				for i := int64(0); i <= 20; i++ {
+					r = append(r, i)
+				}
+				return r
+			})
+		},
+		Covers:  []string{"C08.accept", "C08.reject"},
+		Bounds:  "every registered type (names read from the registry initialiser of the current source) x every payload length 0..20, all payload bytes symbolic",
+		Outside: "payloads longer than 20 bytes (only 28.001 accepts them; its decoder has no length-dependent branch beyond the 2-byte minimum); text produced by String()/Unit() (fmt is stubbed, index expressions are checked)",
+		Assume:  []string{"time.Date/Year/Month/Day are replaced by a civil-calendar stub that is exact on valid dates and returns a different date for invalid ones", "documented ranges are those of DESIGN B.3"},
+	})
+	reg(&Spec{
+		ID:     "C06",
+		Solver: "cvc5",
+		Quick: func(l *loaded) []Inst {
+			return dptAll(l, "HarnessC06", func(m, s int64) []int64 {
+				if m == 28 {
+					return []int64{2, 3, 4, 6}
+				}
+				return []int64{dptWireLen(m)}
+			})
+		},
+		Thorough: func(l *loaded) []Inst {
+			return dptAll(l, "HarnessC06", func(m, s int64) []int64 {
+				if m == 28 {
+					var r []int64
+					for i := int64(2); i <= 18; i++ {
+						r = append(r, i)
+					}
+					return r
+				}
+				w := dptWireLen(m)
+				return []int64{w - 1, w, w + 1}
+			})
+		},
+		Covers:  []string{"C06.accepted"},
+		Bounds:  "every registered type x its wire length (28.001: lengths 2,3,4,6 quick / 2..18 thorough), every payload bit symbolic: all 2^6..2^56 encodings per type are decided by the solver, none sampled",
+		Outside: "28.001 strings longer than 16 characters",
+		Assume:  []string{"byte-identity masks and documented replacements are those of DESIGN B.3"},
+	})
+
+	c07 := func(l *loaded, thorough bool) []Inst {
+		var out []Inst
+		rep := map[[2]int64]bool{{9, 1}: true, {9, 2}: true, {9, 4}: true, {9, 27}: true}
+		for _, n := range dptNames(l) {
+			m, s := n[0], n[1]
+			isFloat := m == 9 || (m == 5 && (s == 1 || s == 3)) || (m == 8 && (s == 3 || s == 4 || s == 10))
+			switch {
+			case isFloat && m == 9 && !thorough && !rep[n]:
+				out = append(out, Inst{Pkg: "dpt", Fn: "HarnessC07Float", Args: []int64{m, s, 1}, Note: "all finite float32 values outside the documented range"})
+			case isFloat:
+				out = append(out, Inst{Pkg: "dpt", Fn: "HarnessC07Float", Args: []int64{m, s, 0}, Note: "all finite float32 values (one symbolic 32-bit pattern)"})
+				if thorough || m != 9 || rep[n] {
+					out = append(out, Inst{Pkg: "dpt", Fn: "HarnessC07Mono", Args: []int64{m, s}, Note: "adjacent-float lemma over all finite float32"})
+				}
+			case m == 14:
+				// IEEE float: exact, covered bit-exactly by C06; shape checked here through the int harness on bits
+				out = append(out, Inst{Pkg: "dpt", Fn: "HarnessC07F32", Args: []int64{m, s}})
+			case m == 10 || m == 11 || m == 232 || m == 242 || m == 251:
+				out = append(out, Inst{Pkg: "dpt", Fn: "HarnessC07Struct", Args: []int64{m}})
+			case m == 16 || m == 28:
+				lens := []int64{0, 1, 2, 13, 14, 15, 16}
+				if thorough {
+					lens = []int64{0, 1, 2, 3, 5, 8, 12, 13, 14, 15, 16, 20, 40}
+				}
+				for _, ln := range lens {
+					pairs := [][2]int64{{0, ln - 1}}
+					if thorough {
+						pairs = [][2]int64{{0, ln - 1}, {1, 13}, {13, 14}, {12, 15}, {ln / 2, ln - 2}}
+					}
+					for _, p := range pairs {
+						out = append(out, Inst{Pkg: "dpt", Fn: "HarnessC07String", Args: []int64{m, s, ln, p[0], p[1]}, Note: "runes at the two given positions fully symbolic, the others fixed"})
+					}
+				}
+				if ln := int64(3); true {
+					out = append(out, Inst{Pkg: "dpt", Fn: "HarnessC07String", Args: []int64{m, s, ln, -1, -1}, Note: "all runes symbolic"})
+				}
+			default:
+				out = append(out, Inst{Pkg: "dpt", Fn: "HarnessC07Int", Args: []int64{m, s}})
+			}
+		}
+		return out
+	}
+	reg(&Spec{
+		ID:       "C07",
+		Solver:   "cvc5",
+		Quick:    func(l *loaded) []Inst { return c07(l, false) },
+		Thorough: func(l *loaded) []Inst { return c07(l, true) },
+		Covers:   []string{"C07.inrange", "C07.above", "C07.below", "C07.mono.end", "C07.int.end", "C07.struct.valid", "C07.struct.invalid", "C07.string.end"},
+		Bounds:   "float-valued types (5.001, 5.003, 8.003/4/10, all 9.xxx): the complete finite float32 domain as one symbolic 32-bit pattern: accuracy, saturation, shape, self-decodability; monotonicity by the adjacent-float lemma (quick: 5.xxx, 8.xxx and the four distinct clamp pairs of 9.xxx; thorough: every type); integer/bool/enumeration types: all values; struct types: all field values including invalid combinations; strings: lengths 0..16 (thorough ..40) with two fully symbolic rune positions, and 3 fully symbolic runes",
+		Outside:  "strings with more than two simultaneously symbolic runes beyond length 3; in the quick tier in-range accuracy and monotonicity of the 9.xxx types are decided for the four distinct clamp pairs (9.001, 9.002, 9.004, 9.027) and only saturation/shape for the other sixteen (all share packF16; C06 decides their in-range re-encoding per type)",
+		Assume:   []string{"tolerance step*(1+2^-10) absorbs the decoder's own float32 evaluation error (DESIGN B.3)"},
+	})
+}
+
+func dptWireLen(m int64) int64 {
+	switch m {
+	case 1:
+		return 1
+	case 5, 6, 17, 18, 20:
+		return 2
+	case 7, 8, 9:
+		return 3
+	case 10, 11, 232:
+		return 4
+	case 12, 13, 14:
+		return 5
+	case 242, 251:
+		return 7
+	case 16:
+		return 15
+	}
+	return 2
 }
